@@ -106,11 +106,86 @@ def model_cache(imports):
 
 
 BRIDGES = os.path.join(CRATE, 'bridges')
+BRIDGE_JOBS = max(1, min(6, (os.cpu_count() or 2) // 2))
 
 
 def coqc(kv, work, f, timeout=120, cwd=None):
     return run(['coqc', '-q', '-Q', kv, 'KV', '-Q', os.path.join(work, 'gen'), 'KVGen', '-Q', os.path.join(work, 'bridges'), 'KVBridge',
                 '-w', COQ_WARN, f], cwd=cwd or work, timeout=timeout)
+
+
+def compile_bridge_module(kv, work, bdir, mod, ids):
+    """One bridge file: compile, cutting out what fails (see compile_bridges).  Returns {lemma id: error}."""
+    failed = {}
+    src_path = os.path.join(BRIDGES, mod + '.v')
+    if not os.path.exists(src_path):
+        for i in ids:
+            failed[i] = 'bridge file bridges/%s.v is missing' % mod
+        return failed
+    text = open(src_path).read()
+    admitted = []
+    for _ in range(len(ids) + 12):
+        open(os.path.join(bdir, mod + '.v'), 'w').write(text)
+        rc, out = coqc(kv, work, mod + '.v', timeout=90, cwd=bdir)
+        if rc == 0:
+            break
+        ln = error_line(out, mod + '.v')
+        lines = text.split('\n')
+        # the lemma (Lemma NAME ... Qed.) enclosing the error
+        start = None
+        if ln is not None:
+            for k in range(min(ln, len(lines)) - 1, -1, -1):
+                m = re.match(r'\s*(?:Lemma|Theorem)\s+([A-Za-z0-9_\']+)', lines[k])
+                if m:
+                    start = (k, m.group(1))
+                    break
+                if re.match(r'\s*(.*\s)?(Qed|Defined|Abort|Admitted)\.\s*$', lines[k]) and k < ln - 1:
+                    break
+        if start is None:
+            for i in ids:
+                failed.setdefault(i, 'bridge file %s.v fails outside a lemma: %s' % (mod, short_err(out)))
+            break
+        k0, lname = start
+        k1 = k0
+        while k1 < len(lines) and not re.match(r'\s*(.*\s)?(Qed\.|Admitted\.)', lines[k1]):
+            k1 += 1
+        if lname.startswith('br_'):
+            lid = lname[3:]
+            failed[lid] = 'the bridge lemma br_%s no longer goes through: %s' % (lid, short_err(out))
+            text = '\n'.join(lines[:k0] + ['(* br_%s removed: it failed *)' % lid] * (k1 - k0 + 1) + lines[k1 + 1:])
+        else:
+            # an auxiliary (simulation) lemma: keep its statement so that the lemmas about *other* functions,
+            # which use it as the specification of their callee, are still checked; every br_ lemma that
+            # appeals to it directly is reported as failed
+            kp = k0
+            while kp <= k1 and not re.match(r'\s*Proof\b', lines[kp]):
+                kp += 1
+            if kp > k1:
+                for i in ids:
+                    failed.setdefault(i, 'bridge file %s.v: cannot isolate the failing lemma %s' % (mod, lname))
+                break
+            # ownership tag on the line(s) above the lemma: (* owner: <function id> *)
+            owner = None
+            for kk in range(k0 - 1, max(k0 - 4, -1), -1):
+                mo = re.search(r'\(\*\s*owner:\s*(\S+)\s*\*\)', lines[kk])
+                if mo:
+                    owner = mo.group(1)
+                    break
+            if owner is None:
+                for i in ids:
+                    failed.setdefault(i, 'bridge file %s.v: the shared lemma %s fails: %s' % (mod, lname, short_err(out)))
+                break
+            failed.setdefault(owner, 'its simulation lemma %s no longer goes through: %s' % (lname, short_err(out)))
+            if any(a[0] == lname for a in admitted):
+                # even the statement is rejected (the generated function is gone): drop the lemma altogether
+                text = '\n'.join(lines[:k0] + ['(* %s removed *)' % lname] * (k1 - k0 + 1) + lines[k1 + 1:])
+                continue
+            admitted.append((lname, short_err(out)))
+            text = '\n'.join(lines[:kp] + ['Proof. Admitted. (* %s failed in this run *)' % lname] + [''] * (k1 - kp) + lines[k1 + 1:])
+    else:
+        for i in ids:
+            failed.setdefault(i, 'bridge file %s.v keeps failing' % mod)
+    return failed
 
 
 def compile_bridges(kv, work, wanted):
@@ -130,43 +205,14 @@ def compile_bridges(kv, work, wanted):
         rc, out = coqc(kv, work, 'BridgeLib.v', timeout=120, cwd=bdir)
         if rc != 0:
             raise ToolError('bridges/BridgeLib.v does not compile:\n' + out[-2000:])
-    for mod, ids in sorted(wanted.items()):
-        src_path = os.path.join(BRIDGES, mod + '.v')
-        if not os.path.exists(src_path):
-            for i in ids:
-                failed[i] = 'bridge file bridges/%s.v is missing' % mod
-            continue
-        text = open(src_path).read()
-        for _ in range(len(ids) + 2):
-            open(os.path.join(bdir, mod + '.v'), 'w').write(text)
-            rc, out = coqc(kv, work, mod + '.v', timeout=90, cwd=bdir)
-            if rc == 0:
-                break
-            ln = error_line(out, mod + '.v')
-            lines = text.split('\n')
-            # the bridge lemma (Lemma br_<id> ... Qed.) enclosing the error
-            start = None
-            if ln is not None:
-                for k in range(min(ln, len(lines)) - 1, -1, -1):
-                    m = re.match(r'\s*Lemma\s+br_(\S+)\s*:', lines[k])
-                    if m:
-                        start = (k, m.group(1))
-                        break
-                    if re.match(r'\s*(Qed|Defined|Abort)\.', lines[k]) and k < ln - 1:
-                        break
-            if start is None:
-                for i in ids:
-                    failed.setdefault(i, 'bridge file %s.v fails outside a bridge lemma: %s' % (mod, short_err(out)))
-                break
-            k0, lid = start
-            k1 = k0
-            while k1 < len(lines) and not re.match(r'\s*(.*\s)?Qed\.\s*$', lines[k1]):
-                k1 += 1
-            failed[lid] = 'the bridge lemma br_%s no longer goes through: %s' % (lid, short_err(out))
-            text = '\n'.join(lines[:k0] + ['(* br_%s removed: it failed *)' % lid] * (k1 - k0 + 1) + lines[k1 + 1:])
-        else:
-            for i in ids:
-                failed.setdefault(i, 'bridge file %s.v keeps failing' % mod)
+    # the bridge files depend on BridgeLib only: compile them side by side (each in its own coqc process)
+    import concurrent.futures
+    mods = sorted(wanted.items())
+    with concurrent.futures.ThreadPoolExecutor(max_workers=min(len(mods), BRIDGE_JOBS)) as ex:
+        results = list(ex.map(lambda mi: compile_bridge_module(kv, work, bdir, mi[0], mi[1]), mods))
+    for r in results:       # in module order: deterministic
+        for k, v in r.items():
+            failed.setdefault(k, v)
     return failed
 
 
@@ -283,7 +329,7 @@ def main():
         spans = []
         for f in fs:
             start = sum(x.count('\n') + 1 for x in lines) + 1
-            proof = 'intros; apply KVBridge.%s.br_%s.' % (f['bridge'], f['id']) if f.get('bridge') else 'tr_solve.'
+            proof = 'exact KVBridge.%s.br_%s.' % (f['bridge'], f['id']) if f.get('bridge') else 'tr_solve.'
             lines.append('(* TR %s *)\nLemma tr_%s : %s.\nProof. %s Qed.' % (f['id'], f['id'], f['lemma'], proof))
             end = sum(x.count('\n') + 1 for x in lines)
             spans.append((f, start, end))
@@ -304,7 +350,7 @@ def main():
             # find every lemma that does not go through, in one diagnostic pass
             lines = [prelude, '']
             for f in todo:
-                tac = '(intros; apply KVBridge.%s.br_%s)' % (f['bridge'], f['id']) if f.get('bridge') else 'tr_solve'
+                tac = '(exact KVBridge.%s.br_%s)' % (f['bridge'], f['id']) if f.get('bridge') else 'tr_solve'
                 lines.append('Goal %s.\nProof. tryif assert_succeeds (timeout 30 %s) then idtac "TR_EQ %s" else idtac "TR_DIFF %s". Abort.'
                              % (f['lemma'], tac, f['id'], f['id']))
             open(os.path.join(work, 'GenEqDiag.v'), 'w').write('\n'.join(lines) + '\n')
